@@ -92,6 +92,19 @@ func (d Doc) Apply(ps []workload.PatchDesc) (Doc, bool) {
 			r.Note = p.Mark
 		case workload.FailTest:
 			return d, false
+		case workload.ReplaceNote:
+			// test /note == IDs[0], then replace: fails unless the note is present with exactly that value
+			if r.Note == "" || len(p.IDs) == 0 || r.Note != p.IDs[0] {
+				return d, false
+			}
+
+			r.Note = p.Mark
+		case workload.RemoveNote:
+			if r.Note == "" {
+				return d, false
+			}
+
+			r.Note = ""
 		case workload.ReplaceAll:
 			r = Doc{}
 			for _, id := range p.IDs {
